@@ -199,3 +199,44 @@ def c09_3(R):
         R.fail(["WRAP_TOLERANCE=%d" % tol, "default-window-packets=%d" % need],
                "WRAP_TOLERANCE (%d) is smaller than the %d packets the default buffers (%d bytes / %d-byte minimum payload) allow in flight: e.g. seq_nr_offset(964, 65000) = -64036 although the modular distance is +1500" % (tol, need, max(rx, tx), min_payload),
                where="src/constants.rs", instance="tolerance>=window-in-packets")
+
+
+@rule("C09.4", ["C09", "C17", "C06"], ["E1", "E4"], "the modular type's own arithmetic wraps",
+      "Inside seq_nr.rs every arithmetic on the raw u16 of a SeqNr is wrapping: Add<u16> / AddAssign<u16> reach u16::wrapping_add(self.0, rhs), Sub<u16> / SubAssign<u16> reach "
+      "u16::wrapping_sub(self.0, rhs) (directly or through the sibling operator), and no saturating_*, checked_*, overflowing_* or built-in +/- touches the raw value: a saturating "
+      "`-= 1` at sequence number 0 (the FIN retransmission rewind) pins the cursor and the FIN is never retransmitted; a plain `+` panics or wraps depending on the build profile.")
+def c09_4(R):
+    F = R.facts
+    want = {
+        "<seq_nr::SeqNr as std::ops::Add<u16>>::add": "wrapping_add",
+        "<seq_nr::SeqNr as std::ops::AddAssign<u16>>::add_assign": "wrapping_add",
+        "<seq_nr::SeqNr as std::ops::Sub<u16>>::sub": "wrapping_sub",
+        "<seq_nr::SeqNr as std::ops::SubAssign<u16>>::sub_assign": "wrapping_sub",
+    }
+    sib = {"wrapping_add": "<seq_nr::SeqNr as std::ops::Add<u16>>::add", "wrapping_sub": "<seq_nr::SeqNr as std::ops::Sub<u16>>::sub"}
+    for name, op in want.items():
+        b = R.body(name)
+        calls = [t for t in b.calls()]
+        direct = [t for t in calls if (t.resolved or "").endswith("::" + op) and "u16" in (t.resolved or "") + (t.callee_full or "")]
+        via = [t for t in calls if t.resolved == sib[op] and name != sib[op]]
+        bad = [t for t in calls if any((t.resolved or "").endswith("::" + x) or ("::" + x) in (t.resolved or "") for x in ("saturating_add", "saturating_sub", "checked_add", "checked_sub", "overflowing_add", "overflowing_sub", "wrapping_add" if op == "wrapping_sub" else "wrapping_sub"))]
+        raw_arith = [s for s in b.stmts() if s.rv.kind == "bin" and s.rv.op in ADD_OPS | SUB_OPS]
+        args_ok = True
+        for t in direct:
+            a0, a1 = trace(b, t.args[0]), trace(b, t.args[1])
+            if not (a0.kind == "param" and a0.root[1] == 1 and a0.last_field == "SeqNr.0" and a1.kind == "param" and a1.root[1] == 2):
+                args_ok = False
+        for t in via:
+            a0, a1 = trace(b, t.args[0]), trace(b, t.args[1])
+            if not (a0.kind == "param" and a0.root[1] == 1 and a1.kind == "param" and a1.root[1] == 2):
+                args_ok = False
+        if (direct or via) and not bad and not raw_arith and args_ok:
+            R.ok("seqnr-arith-wraps", name.split(" as ")[1], "u16::%s(self.0, rhs)%s" % (op, "" if direct else " via the sibling operator"))
+        else:
+            what = short_callee(bad[0].resolved) if bad else ("built-in " + raw_arith[0].rv.op if raw_arith else ("wrong-operands" if not args_ok else "no-" + op))
+            R.fail([name, "not-wrapping", what], "%s is no longer u16::%s(self.0, rhs) (%s): sequence arithmetic breaks at the 16-bit wrap" % (name.split(" as ")[1].rstrip(">"), op, what), where=(bad[0].where() if bad else b.where()), instance="seqnr-arith-wraps")
+    # nothing else in seq_nr.rs does arithmetic on the raw value
+    for b in F.bodies(lambda n: n.startswith(SEQ_BODIES) and n not in want):
+        for s in b.stmts():
+            if s.rv.kind == "bin" and s.rv.op in ADD_OPS | SUB_OPS | MUL_OPS:
+                R.fail([b.name, "raw-arithmetic", s.rv.op], "built-in arithmetic on a sequence number inside seq_nr.rs", where=s.where(), instance="seqnr-arith-wraps")
